@@ -412,3 +412,29 @@ Proof.
 Qed.
 
 End WithSuperblock.
+
+(* ------------------------------------------------------------------ in the words of the property *)
+
+Lemma api_read_raw_trunc : forall sb, valid_size (spp_lensize sb) = true -> forall fuel addr f n, (n <= length f)%nat ->
+  run0 f (api_read_raw sb fuel addr) <> Panic ->
+  run0 (firstn n f) (api_read_raw sb fuel addr) = run0 f (api_read_raw sb fuel addr) \/
+  run0 (firstn n f) (api_read_raw sb fuel addr) = Err.
+Proof. intros sb H fuel addr. exact (trunc_monotone _ _ (api_read_raw_strict sb H fuel addr)). Qed.
+
+Lemma api_read_raw_fault : forall sb, valid_size (spp_lensize sb) = true -> forall fuel addr f k ft,
+  run0 f (api_read_raw sb fuel addr) <> Panic ->
+  fst (run f (fault_at k ft) 0 (api_read_raw sb fuel addr)) = run0 f (api_read_raw sb fuel addr) \/
+  fst (run f (fault_at k ft) 0 (api_read_raw sb fuel addr)) = Err.
+Proof. intros sb H fuel addr. exact (fault_monotone _ _ (api_read_raw_strict sb H fuel addr)). Qed.
+
+Lemma api_attributes_trunc : forall sb, valid_size (spp_lensize sb) = true -> forall fuel addr f n, (n <= length f)%nat ->
+  run0 f (api_attributes sb fuel addr) <> Panic ->
+  run0 (firstn n f) (api_attributes sb fuel addr) = run0 f (api_attributes sb fuel addr) \/
+  run0 (firstn n f) (api_attributes sb fuel addr) = Err.
+Proof. intros sb H fuel addr. exact (trunc_monotone _ _ (api_attributes_strict sb H fuel addr)). Qed.
+
+Lemma api_attributes_fault : forall sb, valid_size (spp_lensize sb) = true -> forall fuel addr f k ft,
+  run0 f (api_attributes sb fuel addr) <> Panic ->
+  fst (run f (fault_at k ft) 0 (api_attributes sb fuel addr)) = run0 f (api_attributes sb fuel addr) \/
+  fst (run f (fault_at k ft) 0 (api_attributes sb fuel addr)) = Err.
+Proof. intros sb H fuel addr. exact (fault_monotone _ _ (api_attributes_strict sb H fuel addr)). Qed.
